@@ -15,7 +15,7 @@
    events are what reqwest/hyper/tokio deliver, persist is one step by the kernel's rename
    atomicity, a concurrently writing second process is outside the model. *)
 From RM Require Import C09.Grammar C10.Model C16.Model C16.Proofs C16.Rehit C16.Driver C16.Shared C16.SharedProofs C16.SharedProofs2 C16.Refine Gen.C16Ops.
-From RM Require C09.Model C10.Stream C16.Stream C16.StreamProofs C16.StreamInst C16.StreamProofs2 C16.StreamPins C16.StaleFlag C16.Raii C16.RaiiProofs.
+From RM Require C09.Model C10.Stream C16.Stream C16.StreamProofs C16.StreamInst C16.StreamProofs2 C16.StreamPins C16.StaleFlag C16.Raii C16.RaiiProofs C16.StreamRefine.
 Open Scope Z_scope.
 
 Section Statements.
@@ -649,6 +649,50 @@ Proof.
   destruct Hpost as [H|[H|[H _]]]; rewrite H in Hc; [inversion Hc; reflexivity|contradiction|discriminate].
 Qed.
 Print Assumptions c16_stream_note_is_reported_url.
+
+(* The abstract machine of C16/Model.v against the streaming download, for every chunking.
+   Model.v takes the whole-body verdict of the streaming parser as its parser ([parse_v]) and says "the temp file holds all bytes
+   received"; for a response with a non-error head, the body in ANY chunks and a clean end its run is — file system, request log,
+   result, continuation with the next server — exactly what [stream_fetch] computes under EVERY body script that delivers those
+   bytes (lines < 80 KiB; environments in which the tee's writes succeed — create_dir_all, NamedTempFile::new_in, remove_file and
+   persist stay arbitrary).  So every theorem above about Model.run is, for such responses, a theorem about the download with the
+   real loop inside; with a failing body both move on with the temp file dropped (ALL inputs). *)
+Module SR := RM.C16.StreamRefine.
+Theorem c16_model_response_is_stream_fetch :
+  forall (L : Type) (llen : L -> Z) (PS : Type) (init_ps : PS) (recog : PS -> L -> PS + Z) (bump : PS -> PS)
+         (lineno : PS -> Z) (T : Type) (finish : PS -> option T) (split : bytes -> list L * Z) (p : path),
+  (forall l, 1 <= llen l) ->
+  forall e u rest cur log f code chunks script,
+  s_env cur = e -> s_url cur = u -> SP.writes_ok e -> code < 400 ->
+  let b := concat chunks in
+  SP.split_ok L llen split b -> C10.Stream.delivered script = Z.of_nat (length b) ->
+  short_lines llen (fst (split b)) (snd (split b)) -> C10.Stream.fails script = false ->
+  Model.run T (SR.parse_v L PS init_ps recog lineno T finish split) SR.never p
+            (mkst f log (LRun rest cur PSend)) (EHead code :: map EChunk chunks ++ [EEof])
+  = match snd (S.stream_fetch L llen PS init_ps recog bump lineno T finish split p e u f b script) with
+    | S.FOk t => mkst (fst (S.stream_fetch L llen PS init_ps recog bump lineno T finish split p e u f b script)) log
+                      (LDone (ROk t (Some u)))
+    | _ => next_server T (fst (S.stream_fetch L llen PS init_ps recog bump lineno T finish split p e u f b script)) log rest
+    end.
+Proof. exact SR.model_response_is_stream_fetch. Qed.
+Print Assumptions c16_model_response_is_stream_fetch.
+
+Theorem c16_model_failed_response_is_stream_fetch :
+  forall (L : Type) (llen : L -> Z) (PS : Type) (init_ps : PS) (recog : PS -> L -> PS + Z) (bump : PS -> PS)
+         (lineno : PS -> Z) (T : Type) (finish : PS -> option T) (split : bytes -> list L * Z) (p : path),
+  (forall l, 1 <= llen l) ->
+  forall e u rest cur log f code chunks b script,
+  s_env cur = e -> SP.writes_ok e -> code < 400 ->
+  SP.split_ok L llen split b -> C10.Stream.delivered script = Z.of_nat (length b) -> C10.Stream.fails script = true ->
+  Model.run T (SR.parse_v L PS init_ps recog lineno T finish split) SR.never p
+            (mkst f log (LRun rest cur PSend)) (EHead code :: map EChunk chunks ++ [EBodyErr])
+  = next_server T (fst (S.stream_fetch L llen PS init_ps recog bump lineno T finish split p e u f b script)) log rest.
+Proof.
+  intros L llen PS init_ps recog bump lineno T finish split p Hl e u rest cur log f code chunks b script He Hw Hc Hs Hd Hf.
+  rewrite (SR.stream_fetch_failed_fs L llen PS init_ps recog bump lineno T finish split p Hl e u f b script Hs Hd Hf).
+  apply SR.model_failed_response; assumption.
+Qed.
+Print Assumptions c16_model_failed_response_is_stream_fetch.
 
 (* The class of seeded/C16-7 stated on the model (C16/StaleFlag.v: the loop with a fast path `if consumed == 0 { continue; }`
    in front of the bookkeeping after parse_more, so that fully_consumed keeps the previous iteration's value).
